@@ -34,7 +34,26 @@ def run(prop, tier, mod):
                 print("POSITIVE-CONTROL-MISSED property=%s %s" % (prop, m))
             print("CHECKER-ERROR property=%s positive control not reported: checker is broken" % prop)
             return 2
-    return rep.finish(explanation, src_hash=h, extract_s=dt)
+    extra = None
+    if tier == "thorough":
+        from . import seeds
+
+        def factory(prog2, d2, rep2, root2):
+            c2 = Ctx(prog2, d2, tier, rep2)
+            c2.repo_root = root2
+            return c2
+
+        old_root = os.environ.get("VERIF_REPO")
+        res = seeds.run_seeds(prop, mod, factory)
+        n_det = sum(1 for r in res if r["status"] == "detected")
+        n_miss = sum(1 for r in res if r["status"] == "missed")
+        for r in res:
+            if r["status"] == "missed":
+                print("SEED-MISSED property=%s %s: a recorded breaking change is no longer reported (checker regression, not a verdict on /repo)" % (prop, r["seed"]))
+        print("%s thorough: %d seeded breaking changes re-applied to scratch copies of the current tree: %d detected, %d missed, %d skipped" % (prop, len(res), n_det, n_miss, len(res) - n_det - n_miss))
+        extra = {"seeded_changes": res, "seeded_detected": n_det, "seeded_missed": n_miss,
+                 "thorough_explanation": "quick analysis plus self-validation: every recorded independently written breaking change of this property (seeded/) is re-applied to a scratch copy of /repo's current working tree, facts are re-extracted and the same rules must report it"}
+    return rep.finish(explanation, extra_cov=extra, src_hash=h, extract_s=dt)
 
 
 class Ctx:
@@ -43,6 +62,7 @@ class Ctx:
         self.facts_dir = facts_dir
         self.tier = tier
         self.rep = rep
+        self.repo_root = extract.REPO
         self._tables = None
 
     @property
